@@ -106,13 +106,17 @@ def run_reader_cid(text, widths, delimiter, encoding=None):
     import cutplace
 
     m = harness.modules()
-    key = (tuple(widths), delimiter, None if encoding == "@offset" else encoding)
+    key = (tuple(widths), delimiter, None if (encoding or "").startswith("@") else encoding)
     if key not in _CIDS:
         rows = [["D", "Format", "Fixed"], ["D", "Encoding", key[2] or "utf-8"], ["D", "Line delimiter", delimiter_name(delimiter)]]
         rows += [["F", "f%d" % i, "", "X", str(w)] for i, w in enumerate(widths)]
         _CIDS[key] = harness.make_cid(rows)
     rows = []
     source = harness.NamedStringIO(text)
+    mode = "raise"
+    if encoding in ("@continue", "@yield"):
+        # the other error modes: a container fault still ends the read with a data format error, nothing is swallowed or handed out as an item
+        mode, encoding = encoding[1:], None
     if encoding == "@offset":
         # a stream the caller has partly consumed (a title line read before the data): the data start where the stream stands
         encoding = None
@@ -126,7 +130,9 @@ def run_reader_cid(text, widths, delimiter, encoding=None):
         with open(source, "w", newline="", encoding=encoding) as stream:
             stream.write(text)
     try:
-        for row in cutplace.rows(_CIDS[key], source):
+        for row in cutplace.rows(_CIDS[key], source, on_error=mode):
+            if isinstance(row, Exception):
+                return "foreign:error-handed-out-as-an-item", [list(r) for r in rows], str(row)
             rows.append(row)
         return "ok", [list(r) for r in rows], None
     except m["errors"].DataFormatError as error:
@@ -148,7 +154,7 @@ def judge_complete(text, widths, delimiter, part, case=None, via_path=False):
         kind, rows, detail = run_reader_path(text, widths, delimiter) if via_path else run_reader(text, widths, delimiter, True)
     part.transitions += 1
     part.validated += 1
-    tag = "%s|%s%%s" % (delimiter_name(delimiter), ("declared-in-a-cid:" if via_path == "cid" else ("stream-handed-over-behind-a-title-line:" if via_path == "cid:@offset" else "declared-in-a-cid-file-in-%s:" % via_path[4:])) if isinstance(via_path, str) and via_path.startswith("cid") else ("file-opened-by-the-reader:" if via_path else ""))
+    tag = "%s|%s%%s" % (delimiter_name(delimiter), ("declared-in-a-cid:" if via_path == "cid" else ("stream-handed-over-behind-a-title-line:" if via_path == "cid:@offset" else ("error-mode-%s:" % via_path[5:] if via_path[4:5] == "@" else "declared-in-a-cid-file-in-%s:" % via_path[4:]))) if isinstance(via_path, str) and via_path.startswith("cid") else ("file-opened-by-the-reader:" if via_path else ""))
     case = case or {"text": text, "widths": list(widths), "delimiter": delimiter, "via_path": via_path}
     total = sum(widths)
     if kind == "ok":
@@ -294,6 +300,7 @@ def run(ctx):
     # the same from files in encodings whose characters take several bytes
     cid_items += [(widths, delimiter, 4 if quick else 6, alphabet, "cid:" + encoding) for widths in ([1], [3], [1, 2]) for delimiter in DELIMITERS
                   for encoding, alphabet in (("utf-16", "ab\r\n"), ("utf-8", "a\xe4\r\n"), ("utf-32", "a\r\n"))]
+    cid_items += [(widths, delimiter, 5 if quick else 7, "ab\r\n", "cid:@" + mode) for mode in ("continue", "yield") for widths in ([2], [1, 2]) for delimiter in DELIMITERS]
     cid_items += [(widths, delimiter, 5 if quick else 7, "ab\r\n", "cid:@offset") for widths in ([1], [2, 1], [3]) for delimiter in DELIMITERS]
     ctx.pmap(MOD, "enumerate_strings", cid_items, label="C13 enumeration through CIDs")
     fix_lists = [[1], [2], [1, 1], [2, 1], [1, 2], [3], [1, 1, 1], [2, 2], [3, 1], [1, 3], [1, 2, 1], [2, 1, 2], [3, 3]] if quick else width_lists("thorough")
